@@ -54,6 +54,37 @@ M('c11-best-match-unguarded', 'C11', 'R1', MT,
 """, """        return matching
 """)
 
+# several returns of a real score: every one of them is held to the component roles (seeded s2-c11-1).  The PERF
+# early return for parameter-less ranges states "exact parameter match" as a literal although only one side is
+# known to be empty.
+_EARLY = """        mr_pnames = frozenset(self.params)
+        mt_pnames = frozenset(media_type.params)
+"""
+
+
+def _early(guard, ret):
+    return "        if %s:\n            return %s\n\n" % (guard, ret) + _EARLY
+
+
+M('c11-early-return-bare-range-exact', 'C11', 'R1', MT, _EARLY,
+  _early("not self.params", "(main_matches, sub_matches, 1, 0, self.quality)"))
+M('c11-early-return-bare-type-exact', 'C11', 'R1', MT, _EARLY,
+  _early("not media_type.params", "(main_matches, sub_matches, 1, 0, self.quality)"))
+M('c11-early-return-either-empty-exact', 'C11', 'R1', MT, _EARLY,
+  _early("not self.params or not media_type.params", "(main_matches, sub_matches, 1, 0, self.quality)"))
+M('c11-early-return-components-swapped', 'C11', 'R1', MT, _EARLY,
+  _early("not self.params and not media_type.params", "(sub_matches, main_matches, 1, 0, self.quality)"))
+M('c11-early-return-wrong-literal', 'C11', 'R1', MT, _EARLY,
+  _early("not self.params and not media_type.params", "(main_matches, sub_matches, 0, 0, self.quality)"))
+M('c11-early-return-literal-main', 'C11', 'R1', MT, _EARLY,
+  _early("not self.params and not media_type.params", "(1, sub_matches, 1, 0, self.quality)"))
+M('c11-early-return-literal-quality', 'C11', 'R1', MT, _EARLY,
+  _early("not self.params and not media_type.params", "(main_matches, sub_matches, 1, 0, 1.0)"))
+M('c11-early-return-unguarded-count', 'C11', 'R1', MT,
+  "        matching = mr_pnames & mt_pnames\n",
+  "        if not mr_pnames ^ mt_pnames:\n            return (main_matches, sub_matches, 1, 0, self.quality)\n"
+  "        matching = mr_pnames & mt_pnames\n")
+
 # ----------------------------------------------------------------------- R2
 M('c11-float-valueerror-unwrapped', 'C11', 'R2', MT,
   "except (TypeError, ValueError) as ex:", "except TypeError as ex:")
@@ -135,6 +166,56 @@ M('c11-pop-direct', 'C11', 'R3', HD,
         \"\"\"Create a shallow copy""")
 M('c11-setitem-not-overridden', 'C11', 'R3', HD,
   "    def __setitem__(self, key: str, value: BaseHandler) -> None:", "    def _set(self, key: str, value: BaseHandler) -> None:")
+
+# bulk writers of self.data (seeded s2-c11-2): dict.update() & co. can store some items and then raise, so the
+# cache_clear() has to be reached on the exceptional exits too
+_BEFORE_IOR = "    def __ior__(self, other: Any) -> Handlers:  # type: ignore[override,misc]\n"
+
+
+def _method(text):
+    return text + "\n" + _BEFORE_IOR
+
+
+M('c11-bulk-update-clear-on-success-only', 'C11', 'R3', HD, _BEFORE_IOR, _method("""    def update(self, *args: Any, **kwargs: Any) -> None:  # type: ignore[override]
+        self.data.update(*args, **kwargs)
+        self._resolve.cache_clear()  # type: ignore[attr-defined]
+"""))
+M('c11-bulk-update-clear-before-write', 'C11', 'R3', HD, _BEFORE_IOR, _method("""    def update(self, *args: Any, **kwargs: Any) -> None:  # type: ignore[override]
+        self._resolve.cache_clear()  # type: ignore[attr-defined]
+        self.data.update(*args, **kwargs)
+"""))
+M('c11-bulk-update-clear-in-else', 'C11', 'R3', HD, _BEFORE_IOR, _method("""    def update(self, *args: Any, **kwargs: Any) -> None:  # type: ignore[override]
+        try:
+            self.data.update(*args, **kwargs)
+        except TypeError:
+            raise
+        else:
+            self._resolve.cache_clear()  # type: ignore[attr-defined]
+"""))
+M('c11-bulk-update-unbound-dict', 'C11', 'R3', HD, _BEFORE_IOR, _method("""    def update(self, *args: Any, **kwargs: Any) -> None:  # type: ignore[override]
+        dict.update(self.data, *args, **kwargs)
+        self._resolve.cache_clear()  # type: ignore[attr-defined]
+"""))
+M('c11-bulk-update-store-loop', 'C11', 'R3', HD, _BEFORE_IOR, _method("""    def update(self, other: Any = (), **kwargs: Any) -> None:  # type: ignore[override]
+        for key, value in other.items():
+            self.data[key] = value
+        self._resolve.cache_clear()  # type: ignore[attr-defined]
+"""))
+M('c11-ior-merge-clear-on-success-only', 'C11', 'R3', HD, """        self.update(other)
+        return self
+""", """        self.data |= other
+        self._resolve.cache_clear()  # type: ignore[attr-defined]
+        return self
+""")
+M('c11-ior-super-clear-on-success-only', 'C11', 'R3', HD, """        self.update(other)
+        return self
+""", """        super().__ior__(other)
+        self._resolve.cache_clear()  # type: ignore[attr-defined]
+        return self
+""")
+# negative controls verified by hand with --root (must stay silent): the same override with
+# `try: self.data.update(...) finally: self._resolve.cache_clear()`, with `except BaseException: clear; raise`,
+# with a loop over `dict(other, **kwargs).items()`, and with `self[key] = value` in the loop.
 
 # ----------------------------------------------------------------------- R4
 M('c11-resolver-star-not-defaulted', 'C11', 'R4', HD,
